@@ -141,7 +141,7 @@ impl<B> GrpcWebCall<B> {
 impl<B: WebBody> GrpcWebCall<B> {
     // representation invariant of the client decoder: the flag says exactly whether the inner body has ended
     pub open spec fn wf(&self) -> bool { self.inner_done == self.inner.ended() && self.decoded.reserve_bound@ < 0 }
-    // the Encode / server-Decode / Empty directions of poll_frame: under contract in unit webserver
+    // A-cut-01: the Encode / server-Decode / Empty directions of poll_frame are an opaque call here; under contract in unit webserver (PF1-PF4)
     #[verifier::external_body]
     pub fn verif_other_directions(&mut self, cx: &mut Context) -> (r: Poll<Option<Result<Frame<Bytes>, Status>>>)
         requires !(old(self).client && old(self).direction == Direction::Decode)
